@@ -499,6 +499,7 @@ func genOverflow(c *GenCtx) {
 }
 
 func genNumbers(c *GenCtx) {
+	genLitPadded(c)
 	r := c.Rng
 	ops := []string{"+", "-", "*", "/", "//", "%", "==", "!=", "<", "<=", ">", ">=", "×", "÷", "−"}
 	special := []string{"0", "-0", "1", "-1", "0.1", "0.2", "0.5", "1.5", "2.5", "3", "7", "-7", "10", "1e-10", "1e34", "9999999999999999999999999999999999",
@@ -802,6 +803,7 @@ func jsonEscape(c *GenCtx, s string, policy int) string {
 var litAlphabet = []string{"'", "\"", "`", "\\", "\n", "\t", "\x00", "\x1f", "é", "😀", "\ufffd", "\uffff", "a", "b", " ", "/", "u", "n", "\\\\", "\\'", "\\`", "{", "}", "[", "]", ":", ",", "\u2028", "\x7f", "$"}
 
 func genLiterals(c *GenCtx) {
+	genLitPadded(c)
 	genLitAdjacent(c)
 	r := c.Rng
 	n := c.n(6000, 150000)
@@ -916,6 +918,26 @@ func genLiterals(c *GenCtx) {
 	}
 }
 
+// JSON literals with white space inside the backticks, before and after the value, in every operand position: a
+// parser that treats `` ` 1` `` or `` `1 ` `` differently from `` `1` `` (a fast path keyed on the first byte, a number kept
+// with its padding) shows in arithmetic, comparison, as an argument, and when the result is serialised (seeded K04, K09)
+func genLitPadded(c *GenCtx) {
+	vals := []string{"1", "-2", "0.5", "10", "1e2", "21", "0", "\"s\"", "[1,2]", "{\"a\":1}", "true", "null", "\"\""}
+	pads := []string{" ", "\t", "\n", "\r", "  ", " \n\t"}
+	doc := `{"a":21,"b":2,"s":"s","items":[{"p":1},{"p":2.5},{"p":10}],"n":null}`
+	for _, v := range vals {
+		for _, pd := range pads {
+			for _, lit := range []string{"`" + pd + v + "`", "`" + v + pd + "`", "`" + pd + v + pd + "`"} {
+				for _, form := range []string{"%s", "%s + `2`", "`2` + %s", "a * %s", "%s - b", "`1` / %s", "a %% %s", "a // %s", "%s > `5`", "a == %s", "%s == a", "a != %s",
+					"items[?p >= %s].p", "abs(%s)", "[%s, %s]", "{k: %s}", "to_string(%s)", "type(%s)", "%s || a", "-%s", "sum([%s, `1`])", "max([%s, a])",
+					"%s | @ + `1`", "let $v = %s in $v * `2`", "sort([%s, `3`, `1`])", "pad_left(s, %s)", "[%s][?@ < `100`]", "contains(`[1,10,21]`, %s)"} {
+					c.add("lit-padded", strings.ReplaceAll(form, "%s", lit), doc)
+				}
+			}
+		}
+	}
+}
+
 // two literals next to each other in the token stream with one punctuation token between them, in every context that
 // allows it, every ordered pair of a pool whose members have their first backslash at different offsets or none: state
 // that a lexer or parser keeps from one literal to the next (an escape offset, a buffer) shows here (seeded J09)
@@ -963,6 +985,31 @@ func genIdentities(c *GenCtx) []identPair {
 	}
 	base := func() string {
 		return r.Pick([]string{"foo", "bar", "a", "b", "foo.bar", "foo[0]", "@", "c.a", "k"})
+	}
+	// index literals around the sizes of the small integer types, applied to a child expression on one side and to the
+	// current node (after a pipe, at the head of a right-hand side, in parentheses) on the other, over arrays long enough
+	// for every one of them to select an element from either end (seeded K08: an `int8` node for small indices)
+	{
+		var nums []string
+		for i := 0; i < 300; i++ {
+			nums = append(nums, strconv.Itoa(i))
+		}
+		long := "[" + strings.Join(nums, ",") + "]"
+		doc := `{"big":` + long + `,"rows":[{"cells":` + long + `},{"cells":[1,2,3]},{"cells":` + long + `}],"top":{"list":` + long + `}}`
+		for _, i := range []int{0, 1, 126, 127, 128, 129, 130, 200, 254, 255, 256, 257, 299, 300, -1, -2, -127, -128, -129, -130, -255, -256, -257, -300, -301, 32767, 32768, 65535, 65536} {
+			ix := "[" + strconv.Itoa(i) + "]"
+			pairs = append(pairs,
+				identPair{"big" + ix, "big | " + ix, doc},
+				identPair{"top.list" + ix, "top.list | " + ix, doc},
+				identPair{"(big)" + ix, "big | " + ix, doc},
+				identPair{"rows[*].cells" + ix, "rows[*].cells | [*]" + ix, doc},
+				identPair{"rows[*].cells" + ix, "map(&cells" + ix + ", rows)[?@ != `null`]", doc},
+				identPair{"(rows[*].cells[0])" + ix, "rows[*].cells[0] | " + ix, doc},
+				identPair{"rows[].cells" + ix, "rows[].cells | [*]" + ix, doc},
+				identPair{"rows[?cells].cells" + ix, "rows[?cells].cells | [*]" + ix, doc},
+				identPair{"[big" + ix + ", big | " + ix + "]", "[big" + ix + ", big" + ix + "]", doc},
+				identPair{"(big[" + strconv.Itoa(i) + ":])[0]", "big[" + strconv.Itoa(i) + ":] | [0]", doc})
+		}
 	}
 	for k := 0; k < n; k++ {
 		doc := c.objDoc(4)
@@ -1263,6 +1310,38 @@ func genEquality(c *GenCtx) {
 			doc := `{"x":` + x + `,"y":` + y + `,"z":[` + y + `]}`
 			for _, e := range []string{"x == y", "x != y", "contains(z, x)", "[x] == z", "{k: x} == {k: y}", "z[?@ == $.x]"} {
 				c.add("eq-pairs", e, doc)
+			}
+		}
+	}
+	// a predicate-like sub-expression compared with a literal, in both orders: `(a < b) == `false`` is false when the
+	// ordering comparison is null, `contains(x, y) != `true``, `!x == `null`` … — a parser or evaluator that folds such a
+	// comparison into the predicate or its negation is wrong exactly where the predicate is not a boolean (seeded K10)
+	{
+		inner := []string{"x < y", "x <= y", "x > y", "x >= y", "x == y", "x != y", "!x", "x && y", "x || y", "x", "contains(z, x)", "starts_with(x, y)",
+			"ends_with(x, y)", "type(x) == 'string'", "x < `1`", "`1` >= x", "not_null(x, y)", "x == `true`", "!(x < y)"}
+		lits := []string{"`true`", "`false`", "`null`", "`0`", "`\"\"`", "`[]`"}
+		vals := []string{`"x"`, `"y"`, `1`, `2`, `null`, `true`, `false`, `[]`, `[1]`, `""`, `{}`}
+		var docs []string
+		for i, a := range vals {
+			for j, b := range vals {
+				if (i+2*j)%3 == 0 || i == j {
+					docs = append(docs, `{"x":`+a+`,"y":`+b+`,"z":[`+a+`,`+b+`]}`)
+				}
+			}
+		}
+		for _, in := range inner {
+			for _, op := range []string{"==", "!="} {
+				for _, l := range lits {
+					for fi, form := range []string{"(" + in + ") " + op + " " + l, l + " " + op + " (" + in + ")", "[x, y, z][?(" + strings.ReplaceAll(strings.ReplaceAll(strings.ReplaceAll(in, "x", "@"), "y", "$.y"), "z", "$.z") + ") " + op + " " + l + "]",
+						"(" + in + ") " + op + " " + l + " && 'then'", "!((" + in + ") " + op + " " + l + ")"} {
+						for di, d := range docs {
+							if fi >= 2 && di%3 != 0 {
+								continue
+							}
+							c.add("cmp-lit", form, d)
+						}
+					}
+				}
 			}
 		}
 	}
